@@ -62,7 +62,11 @@ func (exec *Executor) executeItemOptUnwrapResult(
 		for _, item := range seq.list {
 			switch item := item.(type) {
 			case []any:
-				_, _ = exec.executeItemUnwrapTargetArray(ctx, nil, item, found)
+				// Unwrapping only copies the elements; it fails only if
+				// the context is done.
+				if res, err := exec.executeItemUnwrapTargetArray(ctx, nil, item, found); res.failed() {
+					return res, err
+				}
 			default:
 				found.append(item)
 			}
@@ -87,6 +91,19 @@ func (exec *Executor) executeItemOptUnwrapResultSilent(
 	return exec.executeItemOptUnwrapResult(ctx, node, value, unwrap, found)
 }
 
+// interrupted returns the cancellation error if ctx is done and nil otherwise.
+// Every loop whose length depends on the size of the JSON value calls it once
+// per iteration, so that a context that becomes done is noticed after a number
+// of steps that does not depend on the input.
+func interrupted(ctx context.Context) error {
+	select {
+	case <-ctx.Done():
+		return fmt.Errorf("%w: %w", ErrExecution, ctx.Err())
+	default:
+		return nil
+	}
+}
+
 // executeItemOptUnwrapTarget is the main executor function: walks on jsonpath
 // structure, finds relevant parts of value and evaluates expressions over
 // them. When unwrap is true, the current SQL/JSON item is unwrapped if it is
@@ -100,10 +117,8 @@ func (exec *Executor) executeItemOptUnwrapTarget(
 	unwrap bool,
 ) (resultStatus, error) {
 	// Check for interrupts.
-	select {
-	case <-ctx.Done():
-		return statusFailed, fmt.Errorf("%w: %w", ErrExecution, ctx.Err())
-	default:
+	if err := interrupted(ctx); err != nil {
+		return statusFailed, err
 	}
 
 	switch node := node.(type) {
